@@ -60,17 +60,40 @@ QL = ['g1', 'g2', 'g4']
 RL = [0, 2, 5]
 
 
-def run_case(sh, fx, d, case):
+PREVIOUS = 'PREVIOUS RESULT, written by an earlier successful run\n'
+
+
+def run_case(sh, fx, d, case, pre=None):
+	"""Each case twice: output path absent before the run, and holding an earlier result (which a refused run must leave as it is)."""
+	for p in ((False, True) if pre is None else (pre,)):
+		_run_case(sh, fx, d, case, p)
+
+
+def _wrote(path, pre):
+	if not os.path.exists(path) or os.path.getsize(path) == 0:
+		return bool(pre)         # an earlier result that vanished or was emptied: the run wrote (nothing) over it
+	if pre:
+		with open(path, 'rb') as f:
+			return f.read() != PREVIOUS.encode()
+	return True
+
+
+def _run_case(sh, fx, d, case, pre):
 	cmd, a, b, c = case
 	out = os.path.join(d, 'out.csv')
 	if os.path.exists(out):
 		os.unlink(out)
+	if pre:
+		with open(out, 'w') as f:
+			f.write(PREVIOUS)
 	cd = dict(cmd=cmd, a=a, b=b, c=c)
+	if pre:
+		cd['output_path_held_an_earlier_result'] = True
 	if cmd == 'query':
 		args = ['-d', fx.dbdir, 'query', '--no-progress', '-o', out, '-s', fx.qsig[a]]
 		code, stdout, exc, err = fixtures.run_cli(args)
 		sh.evals += 1
-		wrote = os.path.exists(out) and os.path.getsize(out) > 0
+		wrote = _wrote(out, pre)
 		if a == 'P0':
 			if code != 0 or not wrote:
 				sh.violation('matching-parameters-refused', cd, 'exit 0 + output', dict(exit=code, wrote=wrote, exc=repr(exc)))
@@ -79,7 +102,7 @@ def run_case(sh, fx, d, case):
 		else:
 			sh.nontrivial += 1
 			if code == 0 or wrote:
-				sh.violation('mismatch-not-refused', cd, 'non-zero exit, no output', dict(exit=code, wrote=wrote, output_head=open(out).read()[:200] if wrote else None))
+				sh.violation('mismatch-not-refused', cd, 'non-zero exit, no output', dict(exit=code, wrote=wrote, output_head=open(out).read()[:200] if wrote and os.path.exists(out) else None))
 			else:
 				sh.count('mismatch_refused')
 		sh.outcome([cmd, a, code != 0])
@@ -88,6 +111,9 @@ def run_case(sh, fx, d, case):
 		outp = os.path.join(d, 'created.gs')
 		if os.path.exists(outp):
 			os.unlink(outp)
+		if pre:
+			with open(outp, 'w') as f:
+				f.write(PREVIOUS)
 		parts = a.split('+')
 		args = ['-d', fx.dbdir, 'signatures', 'create', '--no-progress', '-o', outp]
 		exp_p, ok = 'DEF', True
@@ -107,7 +133,7 @@ def run_case(sh, fx, d, case):
 		args += [fx.q[l] for l in QL]
 		code, stdout, exc, err = fixtures.run_cli(args)
 		sh.evals += 1
-		wrote = os.path.exists(outp)
+		wrote = _wrote(outp, pre) if pre else os.path.exists(outp)
 		if not ok:
 			sh.nontrivial += 1
 			if code == 0 or wrote:
@@ -161,7 +187,7 @@ def run_case(sh, fx, d, case):
 		args += ['--rs', fx.rsig[pr]]
 	code, stdout, exc, err = fixtures.run_cli(args)
 	sh.evals += 1
-	wrote = os.path.exists(out) and os.path.getsize(out) > 0
+	wrote = _wrote(out, pre)
 	must_fail = (not complete) or (pq and pr and pq != pr) or (pe and pq and pe != pq) or (pe and pr and pe != pr)
 	involved = {x for x in (pe, pq, pr) if x}
 	if must_fail:
@@ -221,7 +247,7 @@ def replay(case, kind=None):
 	sh = Shard()
 	with fixtures.workdir('c14r') as d:
 		fx = clifix.build(os.path.join(d, 'fx'), params=PS)
-		run_case(sh, fx, d, (case['cmd'], case['a'], case['b'], case['c']))
+		run_case(sh, fx, d, (case['cmd'], case['a'], case['b'], case['c']), pre=bool(case.get('output_path_held_an_earlier_result')))
 	return sh.violations
 
 
